@@ -35,7 +35,8 @@ func TestMain(m *testing.M) {
 			"2- and 3-rings, shared helpers, acyclic controls) is loaded thousands of times free-running with the package loaders aligned by a barrier builtin "+
 			"(and a generated skew), to reach races in windows without a scheduling point; deadlocks are confirmed from stack dumps. A catalogue of eight "+
 			"small graphs (2-rings, BUILD files loading each other, 4- and 5-rings through two packages, acyclic controls) is run under EVERY "+
-			"run-until-block schedule with one (quick) / two (thorough) preemptions. Distinct by case JSON.",
+			"run-until-block schedule with one (quick) / two (thorough) preemptions. Reload histories: one Project is loaded and then reloaded (as watch mode does) after each of 1-5 rewrites of "+
+			"its module files into another generated graph of the same shape (acyclic, cyclic, repaired); every reload is held to the same oracle as a fresh load of what is on disk. Distinct by case JSON.",
 		"Starlark execution between two load statements is atomic under the cooperative scheduler",
 	)
 	ev.Main(m, run)
